@@ -104,7 +104,10 @@ func cfgFor(prop string) propCfg {
 	return c
 }
 
-var propOverrides = map[string]func(*propCfg){}
+var propOverrides = map[string]func(*propCfg){
+	"C02": func(c *propCfg) { c.quickRuns, c.quickSecs = 1500, 100 },
+	"C39": func(c *propCfg) { c.quickRuns, c.quickSecs = 800, 90 },
+}
 
 type agg struct {
 	mu        sync.Mutex
